@@ -72,6 +72,8 @@ extern "C" void harness(void) {
   { Path missing(std::string(vf_fs_root()) + "/zz"); __vf_check(!missing.exists() && !missing.isFile() && !missing.isDirectory(), "a missing path does not exist"); }
   // DirectoryVisitor restores the previous working directory
   for (int i = 1; i <= 4; i++) if (i <= nn && kind[i]) { unsigned before = vf_fs_cwd(); { DirectoryVisitor v(Path(path_of(i))); __vf_check(vf_fs_cwd() == id[i], "DirectoryVisitor enters the directory"); } __vf_check(vf_fs_cwd() == before, "DirectoryVisitor restores the previous working directory"); }
+  // the same with a RELATIVE target (resolved against the working directory at the time of the visit)
+  for (int i = 1; i <= 4; i++) if (i <= nn && kind[i] && parent[i] == 0) { unsigned before = vf_fs_cwd(); { DirectoryVisitor v{Path(std::string(names[nm[i]]))}; __vf_check(vf_fs_cwd() == id[i], "DirectoryVisitor enters a relative directory"); } __vf_check(vf_fs_cwd() == before, "DirectoryVisitor restores the previous working directory after a relative visit"); }
   __vf_check(vf_fs_open_handles() == 0, "every stream and directory handle is closed again");
   __vf_reach("file system part");
 #endif
